@@ -84,7 +84,15 @@ impl<'de> RandomAccessDeserializer<'de> for EnumDeserializer<'de> {
         }
         let type_id = self.types[idx];
         let offset = self.offsets[idx].try_into_usize()?;
-        let (name, variant) = &self.variants[type_id as usize];
+        let Some((name, variant)) = usize::try_from(type_id)
+            .ok()
+            .and_then(|type_id| self.variants.get(type_id))
+        else {
+            fail!(
+                "Invalid type id {type_id} in union with {num_variants} variants",
+                num_variants = self.variants.len()
+            );
+        };
 
         visitor.visit_enum(VariantItemDeserializer {
             deserializer: variant.at(offset),
